@@ -1,2 +1,139 @@
-(* C06, textual half (Newick, printed tree): property theorems only; proofs in Algo/TextIOProofs.v. *)
+(* C06, textual half (Newick, printed tree): property theorems only; proofs in Algo/TextIOProofs.v.
+
+   Models: Algo/TextIO.v (tree_to_newick, newick_to_tree, yield_tree/print_tree, str_to_tree with
+   tree_prefix_list = []).  Predicates and alphabets: Spec/PC06Text.v.  *)
 From BT Require Import Base.Prelude Base.Str Base.Rose Algo.TextIO Spec.PC06Text Algo.TextIOProofs.
+
+Local Open Scope N_scope.
+
+(* ------------------------------------------------------------------------------------------ *)
+(* Newick                                                                                      *)
+
+(* Round trip, export without length / attributes and with intermediate node names (any separators,
+   any attribute prefix, exported from the root or from an inner node).
+   Guard = newick_alphabet: every name non-empty and without the quote character, sibling names distinct.
+   Named _partial because lengths, attributes and intermediate_node_name=False are not covered by this
+   theorem (they are covered by the correspondence check + the same predicates). *)
+Theorem C06_newick_roundtrip_partial :
+  forall lsep pf asep dflt isroot t,
+    newick_alphabet (NwOpt true [] [] pf dflt) isroot t = true ->
+    exists s back,
+      nw_write (NwCfg true [] lsep [] pf asep) isroot t = Ret s
+      /\ nw_parse (la_of (NwOpt true [] [] pf dflt)) pf s = Ret back
+      /\ prop_newick_back (NwOpt true [] [] pf dflt) isroot t back = true.
+Proof.
+  intros lsep pf asep dflt isroot t H.
+  pose proof (alphabet_tree_ok pf dflt isroot t H) as Hok.
+  exists (nw_plain t), (erase t). split; [apply (nw_write_plain lsep pf asep)|]. split.
+  - apply nw_parse_plain. exact Hok.
+  - unfold prop_newick_back. cbn [o_inter]. fold (opt_plain pf dflt).
+    rewrite nw_view_plain. apply tree_eqb_refl.
+Qed.
+Print Assumptions C06_newick_roundtrip_partial.
+
+(* The equality is literal: the rebuilt tree is the input with tags and attributes erased. *)
+Theorem C06_newick_roundtrip_exact :
+  forall la lsep pf asep dflt isroot t,
+    newick_alphabet (NwOpt true [] [] pf dflt) isroot t = true ->
+    exists s, nw_write (NwCfg true [] lsep [] pf asep) isroot t = Ret s /\ nw_parse la pf s = Ret (erase t).
+Proof.
+  intros la lsep pf asep dflt isroot t H.
+  exists (nw_plain t). split; [apply (nw_write_plain lsep pf asep)|].
+  apply nw_parse_plain. exact (alphabet_tree_ok pf dflt isroot t H).
+Qed.
+Print Assumptions C06_newick_roundtrip_exact.
+
+(* Every node exactly once, nested as the tree is, exact (quoted) name: the exported text, read by the
+   reference grammar of the spec, denotes the tree (same fragment and guard as above). *)
+Theorem C06_newick_nodes_once :
+  forall lsep pf asep dflt isroot t,
+    newick_alphabet (NwOpt true [] [] pf dflt) isroot t = true ->
+    exists s,
+      nw_write (NwCfg true [] lsep [] pf asep) isroot t = Ret s
+      /\ prop_newick_export (NwOpt true [] [] pf dflt) isroot t s = true.
+Proof.
+  intros lsep pf asep dflt isroot t H.
+  pose proof (alphabet_tree_ok pf dflt isroot t H) as Hok.
+  exists (nw_plain t). split; [apply (nw_write_plain lsep pf asep)|].
+  unfold prop_newick_export. rewrite (newick_read_plain _ pf t Hok).
+  fold (opt_plain pf dflt). rewrite nw_view_plain. apply tree_eqb_refl.
+Qed.
+Print Assumptions C06_newick_nodes_once.
+
+(* non-vacuity: a tree with fan-out 3, depth 3, names containing every special character *)
+Definition ex_tree : tree :=
+  T (Some 0%nat) [97; 32; 98] []
+    [ T (Some 1%nat) [120; 58; 121] [] [ T (Some 2%nat) [40] [] []; T (Some 3%nat) [41; 44] [] [] ];
+      T (Some 4%nat) [91; 61; 93] [] [];
+      T (Some 5%nat) [99] [] [ T (Some 6%nat) [110; 111; 100; 101; 48] [] [] ] ].
+Example C06_newick_guard_satisfiable :
+  newick_alphabet (NwOpt true [] [] [38; 38] true) true ex_tree = true
+  /\ nw_write (NwCfg true [] [58] [] [38; 38] [58]) true ex_tree
+     = Ret [40; 40; 39; 40; 39; 44; 39; 41; 44; 39; 41; 39; 120; 58; 121; 39; 44;
+            39; 91; 61; 93; 39; 44; 40; 110; 111; 100; 101; 48; 41; 99; 41; 97; 32; 98].
+Proof. split; vm_compute; reflexivity. Qed.
+
+(* outside the alphabet: the quote character is rewritten, the round trip does not return the name *)
+Example C06_newick_quote_refuted :
+  exists t s back,
+    nw_write (NwCfg true [] [58] [] [] [58]) true t = Ret s
+    /\ nw_parse default_len [] s = Ret back
+    /\ tree_eqb (erase t) back = false.
+Proof.
+  exists (T None [105; 116; 39; 115] [] []). eexists. eexists.
+  split; [vm_compute; reflexivity|]. split; vm_compute; reflexivity.
+Qed.
+
+(* outside the alphabet: without intermediate names, a leaf called node0 collides with the name the
+   importer invents for its unnamed sibling (TreeError "Duplicate node") *)
+Example C06_newick_autoname_refuted :
+  exists t s,
+    nw_write (NwCfg false [] [58] [] [] [58]) true t = Ret s
+    /\ nw_parse default_len [] s = Raise TreeError.
+Proof.
+  exists (T None [97] [] [ T None [107] [] [ T None [97] [] [] ]; T None [110; 111; 100; 101; 48] [] [] ]).
+  eexists. split; vm_compute; reflexivity.
+Qed.
+
+(* ------------------------------------------------------------------------------------------ *)
+(* printed tree                                                                                *)
+
+(* a tree is determined by its pre-order list of (depth, name): forest_of_pre (Base/Rose.v) decodes it *)
+Theorem C06_print_tree_of_preorder_depths :
+  forall t fuel, (length (pn 0 t) <= fuel)%nat -> forest_of_pre mk_plain fuel 0 (pn 0 t) = [erase t].
+Proof. exact forest_of_pre_pn. Qed.
+Print Assumptions C06_print_tree_of_preorder_depths.
+
+(* str_to_tree (print_tree t) = t for every style made of non-ASCII characters and blanks (const,
+   const_bold, rounded, double and custom ones) and non-empty printable-ASCII names without a leading
+   blank, sibling names distinct (guard = print_alphabet). *)
+Theorem C06_print_roundtrip :
+  forall stem branch final t,
+    print_alphabet (stem, branch, final) t = true ->
+    exists s back,
+      print_str (stem, branch, final) t = Ret s
+      /\ str_to_tree_m s = Ret back
+      /\ prop_print_back t back = true.
+Proof.
+  intros stem branch final t H.
+  destruct (print_roundtrip stem branch final t H) as (s & H1 & H2).
+  exists s, (erase t). split; [exact H1|]. split; [exact H2|].
+  unfold prop_print_back. apply tree_eqb_refl.
+Qed.
+Print Assumptions C06_print_roundtrip.
+
+Example C06_print_guard_satisfiable :
+  print_alphabet style_const (T None [97; 32; 98] [] [ T None [120] [] [ T None [40; 121; 41] [] [ T None [122; 32] [] [] ]; T None [49] [] [] ];
+                                                       T None [43; 45; 45] [] [] ]) = true
+  /\ print_alphabet style_const_bold ex_tree = true
+  /\ print_alphabet style_rounded ex_tree = true
+  /\ print_alphabet style_double ex_tree = true.
+Proof. repeat split; vm_compute; reflexivity. Qed.
+
+(* outside the alphabet: with the ansi / ascii styles the default branch of str_to_tree cannot infer
+   the prefix ("Invalid prefix") *)
+Example C06_print_ascii_style_refuted :
+  exists t s, print_str style_ansi t = Ret s /\ str_to_tree_m s = Raise ValueError.
+Proof.
+  exists (T None [97] [] [ T None [98] [] [] ]). eexists. split; vm_compute; reflexivity.
+Qed.
